@@ -85,4 +85,57 @@ theorem rrr_describes (f : Form) (wa wb wc : GpW) (spa spb spc : Bool) (opc x : 
   simp only [describes, Form.matchesTemplate, t, hops, matchOps, m0, m1, m2]
   simp
 
+/-! ### four-register forms (Rd, Rn, Rm, Ra) -/
+
+theorem rrrr_fields (opc x rd rn rm ra mask value : BitVec 32)
+    (hc : opc &&& 0x001F7FFF#32 = 0#32) (hm : mask &&& 0x001F7FFF#32 = 0#32) (hv : (opc ||| (x <<< 31)) &&& mask = value)
+    (h0 : rd.ult 32#32 = true) (h1 : rn.ult 32#32 = true) (h2 : rm.ult 32#32 = true) (h3 : ra.ult 32#32 = true) :
+    (opc ||| (x <<< 31) ||| (rm <<< 16) ||| (ra <<< 10) ||| (rn <<< 5) ||| (rd <<< 0)) &&& mask = value ∧
+    ((opc ||| (x <<< 31) ||| (rm <<< 16) ||| (ra <<< 10) ||| (rn <<< 5) ||| (rd <<< 0)) >>> 0) &&& 31#32 = rd ∧
+    ((opc ||| (x <<< 31) ||| (rm <<< 16) ||| (ra <<< 10) ||| (rn <<< 5) ||| (rd <<< 0)) >>> 5) &&& 31#32 = rn ∧
+    ((opc ||| (x <<< 31) ||| (rm <<< 16) ||| (ra <<< 10) ||| (rn <<< 5) ||| (rd <<< 0)) >>> 16) &&& 31#32 = rm ∧
+    ((opc ||| (x <<< 31) ||| (rm <<< 16) ||| (ra <<< 10) ||| (rn <<< 5) ||| (rd <<< 0)) >>> 10) &&& 31#32 = ra := by
+  bv_decide
+
+def isRRRRForm (f : Form) (wa wb wc wd : GpW) (spa spb spc spd : Bool) (opcx : BitVec 32) : Bool :=
+  f.ops == [.gp wa "Rd" spa, .gp wb "Rn" spb, .gp wc "Rm" spc, .gp wd "Ra" spd] &&
+  f.fields.filter (·.name == "Rd") == [⟨"Rd", [⟨0, 0, 5⟩]⟩] &&
+  f.fields.filter (·.name == "Rn") == [⟨"Rn", [⟨5, 0, 5⟩]⟩] &&
+  f.fields.filter (·.name == "Rm") == [⟨"Rm", [⟨16, 0, 5⟩]⟩] &&
+  f.fields.filter (·.name == "Ra") == [⟨"Ra", [⟨10, 0, 5⟩]⟩] &&
+  f.freeFields.isEmpty && decide (f.mask < 2 ^ 32) && decide (f.value < 2 ^ 32) &&
+  (BitVec.ofNat 32 f.mask &&& 0x001F7FFF#32 == 0#32) && (opcx &&& BitVec.ofNat 32 f.mask == BitVec.ofNat 32 f.value)
+
+theorem rrrr_describes (f : Form) (wa wb wc wd : GpW) (spa spb spc spd : Bool) (opc x : BitVec 32) (o0 o1 o2 o3 : Reg) (pc : BitVec 64)
+    (hf : isRRRRForm f wa wb wc wd spa spb spc spd (opc ||| (x <<< 31)) = true)
+    (hc : opc &&& 0x001F7FFF#32 = 0#32)
+    (h0 : gpOk wa spa o0) (h1 : gpOk wb spb o1) (h2 : gpOk wc spc o2) (h3 : gpOk wd spd o3) :
+    describes f [.reg o0, .reg o1, .reg o2, .reg o3] pc
+      (opc ||| (x <<< 31) ||| (BitVec.ofNat 32 (o2.id % 32) <<< 16) ||| (BitVec.ofNat 32 (o3.id % 32) <<< 10) |||
+       (BitVec.ofNat 32 (o1.id % 32) <<< 5) ||| (BitVec.ofNat 32 (o0.id % 32) <<< 0)) = true := by
+  simp only [isRRRRForm, Bool.and_eq_true, beq_iff_eq, decide_eq_true_eq] at hf
+  obtain ⟨⟨⟨⟨⟨⟨⟨⟨⟨hops, hRd⟩, hRn⟩, hRm⟩, hRa⟩, _hfree⟩, hmlt⟩, hvlt⟩, hm⟩, hv⟩ := hf
+  obtain ⟨k1, k2, k3, k4, k5⟩ := rrrr_fields opc x (BitVec.ofNat 32 (o0.id % 32)) (BitVec.ofNat 32 (o1.id % 32)) (BitVec.ofNat 32 (o2.id % 32))
+    (BitVec.ofNat 32 (o3.id % 32)) (BitVec.ofNat 32 f.mask) (BitVec.ofNat 32 f.value) hc hm hv
+    (ofNat_mod32_ult _) (ofNat_mod32_ult _) (ofNat_mod32_ult _) (ofNat_mod32_ult _)
+  generalize hw : (opc ||| (x <<< 31) ||| (BitVec.ofNat 32 (o2.id % 32) <<< 16) ||| (BitVec.ofNat 32 (o3.id % 32) <<< 10) |||
+       (BitVec.ofNat 32 (o1.id % 32) <<< 5) ||| (BitVec.ofNat 32 (o0.id % 32) <<< 0)) = w at *
+  have t : w.toNat &&& f.mask = f.value := by
+    rw [toNat_and_mask w f.mask hmlt, k1]; simp [BitVec.toNat_ofNat, Nat.mod_eq_of_lt hvlt]
+  have f0 : (w.toNat >>> 0) % 2 ^ 5 = o0.id % 32 := by rw [toNat_field, k2, ofNat_mod32_toNat]
+  have f5 : (w.toNat >>> 5) % 2 ^ 5 = o1.id % 32 := by rw [toNat_field, k3, ofNat_mod32_toNat]
+  have f16 : (w.toNat >>> 16) % 2 ^ 5 = o2.id % 32 := by rw [toNat_field, k4, ofNat_mod32_toNat]
+  have f10 : (w.toNat >>> 10) % 2 ^ 5 = o3.id % 32 := by rw [toNat_field, k5, ofNat_mod32_toNat]
+  have g0 := ctx_get_single f.fields w.toNat pc f.name "Rd" 0 hRd
+  have g5 := ctx_get_single f.fields w.toNat pc f.name "Rn" 5 hRn
+  have g16 := ctx_get_single f.fields w.toNat pc f.name "Rm" 16 hRm
+  have g10 := ctx_get_single f.fields w.toNat pc f.name "Ra" 10 hRa
+  rw [f0] at g0; rw [f5] at g5; rw [f16] at g16; rw [f10] at g10
+  have m0 := matchOp_gp _ wa "Rd" spa o0 [.reg o1, .reg o2, .reg o3] g0 h0
+  have m1 := matchOp_gp _ wb "Rn" spb o1 [.reg o2, .reg o3] g5 h1
+  have m2 := matchOp_gp _ wc "Rm" spc o2 [.reg o3] g16 h2
+  have m3 := matchOp_gp _ wd "Ra" spd o3 [] g10 h3
+  simp only [describes, Form.matchesTemplate, t, hops, matchOps, m0, m1, m2, m3]
+  simp
+
 end AsmjitVerif.C02
